@@ -437,6 +437,8 @@ func (e *Exec) builtinFn(b *ssa.Builtin, cc *ssa.CallCommon, in ssa.Instruction,
 			}
 			return r
 		}, true
+	case "close":
+		return func(args []Value) Value { e.chanClose(args[0], st); return nil }, false
 	case "recover":
 		return func(args []Value) Value {
 			if e.panicking == nil {
